@@ -109,7 +109,7 @@ theorem Final.subtypes_sup {rx E fs st} (hE : EnvOK2 E fs) (hF : Final rx E fs s
       simp only [List.mem_map, List.mem_filter, beq_iff_eq]
       exact ⟨((ns', d'.name), c'), ⟨mem_of_lookup hl, hp.symm⟩, rfl⟩
     · cases hk
-  | «alias» _ _ | route _ | imp _ | annot _ | annotType _ | patch _ => simp at hk
+  | «alias» _ _ | route _ | imp _ | annot _ _ | annotType _ | patch _ | aliasAnnots _ _ => simp at hk
 
 theorem subtypeFields_sound {rx E fs st ns} (hE : EnvOK2 E fs) (hlook : lookOf st.aliases = aliasS rx fs) :
     ∀ {subs : List (String × TRef)} {fields}, subtypeFields rx E st ns subs = .ok fields →
